@@ -144,14 +144,18 @@ fn list_current_history(sh: &Shell, conn: &Conn,
     let history_table = history::get_history_table();
     let mut sql = format!("SELECT ROWID, inp, tsb FROM {} WHERE ROWID > 0",
                           history_table);
+    let mut params: Vec<String> = Vec::new();
     if !opt.pattern.is_empty() {
-        sql = format!("{} AND inp LIKE '%{}%'", sql, opt.pattern)
+        sql = format!("{} AND inp LIKE ?", sql);
+        params.push(format!("%{}%", opt.pattern));
     }
     if opt.session {
-        sql = format!("{} AND sessionid = '{}'", sql, sh.session_id)
+        sql = format!("{} AND sessionid = ?", sql);
+        params.push(sh.session_id.clone());
     }
     if opt.pwd {
-        sql = format!("{} AND info like '%dir:{}|%'", sql, sh.current_dir)
+        sql = format!("{} AND info like ?", sql);
+        params.push(format!("%dir:{}|%", sh.current_dir));
     }
 
     if opt.asc {
@@ -170,7 +174,7 @@ fn list_current_history(sh: &Shell, conn: &Conn,
         }
     };
 
-    let mut rows = match stmt.query([]) {
+    let mut rows = match stmt.query(rusqlite::params_from_iter(params.iter())) {
         Ok(x) => x,
         Err(e) => {
             let info = format!("history: query error: {:?}", e);
